@@ -109,11 +109,16 @@ impl TsRunContext {
 /// Wraps a JavaScript value with a guard to prevent garbage collection.
 pub struct TsRunValue {
     pub(crate) inner: RuntimeValue,
+    /// What an object box reads as once the heap of its context is gone
+    gone: JsValue,
 }
 
 impl TsRunValue {
     pub(crate) fn from_runtime_value(rv: RuntimeValue) -> Box<Self> {
-        Box::new(Self { inner: rv })
+        Box::new(Self {
+            inner: rv,
+            gone: JsValue::Undefined,
+        })
     }
 
     pub(crate) fn from_js_value(interp: &mut Interpreter, value: JsValue) -> Box<Self> {
@@ -123,16 +128,43 @@ impl TsRunValue {
             guard.guard(obj.cheap_clone());
             Box::new(Self {
                 inner: RuntimeValue::with_guard(value, guard),
+                gone: JsValue::Undefined,
             })
         } else {
             Box::new(Self {
                 inner: RuntimeValue::unguarded(value),
+                gone: JsValue::Undefined,
             })
         }
     }
 
+    /// The boxed value.  A box may outlive its context; an object whose heap is gone must
+    /// never be dereferenced, so such a survivor reads as `undefined`.
     pub(crate) fn value(&self) -> &JsValue {
-        self.inner.value()
+        match self.inner.value() {
+            JsValue::Object(obj) if !obj.is_alive() => &self.gone,
+            other => other,
+        }
+    }
+}
+
+impl TsRunContext {
+    /// Objects can only be used with the context whose heap they live in (a reference stored
+    /// into another heap would dangle once its own context is released).
+    /// The value as this context may use it: an object of another context reads as `undefined`
+    pub(crate) fn view(&self, v: &TsRunValue) -> JsValue {
+        if self.owns(v) {
+            v.value().clone()
+        } else {
+            JsValue::Undefined
+        }
+    }
+
+    pub(crate) fn owns(&self, v: &TsRunValue) -> bool {
+        match v.value() {
+            JsValue::Object(obj) => obj.belongs_to(&self.interp.heap),
+            _ => true,
+        }
     }
 }
 
